@@ -99,7 +99,9 @@ def merge_middlewares(old, new):
     old = list(old)
     merged = list(new)
     for mw in old:
-        if mw.unique and mw in merged:
+        # by type, as Middleware.__eq__ does it: a subclass may define
+        # equality of its own (e.g., an attrs class comparing fields)
+        if mw.unique and any([type(m) == type(mw) for m in merged]):
             if mw.reorderable:
                 continue
             else:
